@@ -24,6 +24,7 @@ pub use having_total_cse::HavingTotalCse;
 pub use join_reorder::JoinReorder;
 pub use packed_group_keys::PackedGroupKeys;
 pub use packed_join_keys::PackedJoinKeys;
+pub(crate) use packed_join_keys::{column_origin, ColumnOrigin};
 pub use predicate_pushdown::PredicatePushdown;
 pub use projection_pushdown::ProjectionPushdown;
 pub use semi_join_pushdown::SemiJoinPushdown;
